@@ -14,7 +14,9 @@ CONSTANTS Keys,      \* e.g. {"k1", "k2"}
           MaxH,      \* chain height bound
           MaxBad,    \* adversarial steps per behaviour
           Edits,     \* transaction edits the adversary may use
-          PoolOps    \* BOOLEAN: explore pool operations
+          PoolOps,   \* BOOLEAN: explore pool operations
+          GTChoices, \* subset of BOOLEAN: ticket flags the honest producer may choose
+          ScnLen     \* scenario length at which a behaviour is emitted (0 = at MaxH)
 
 VARIABLES u,      \* spendable outputs [o, owner, amt, bh, kind]   (amt: limb triple)
           h,      \* tip height
@@ -100,10 +102,13 @@ Desc(t) ==
 Init ==
     /\ u = Genesis /\ h = 1 /\ n = 1 /\ spent = {} /\ pool = {} /\ nbad = 0 /\ hist = <<>>
 
+(* after every accepted block the pool drops what no longer validates (remove_block_transactions) *)
+Prune(pl, v, hh) == {q \in pl : q.ins[1].o \in Names(v) /\ InWindow(q.ins[1].bh, hh + 1, G)}
+
 (* ---- honest blocks ---------------------------------------------------------------- *)
 GoodBlock ==
     /\ h < MaxH
-    /\ \E gt \in BOOLEAN :
+    /\ \E gt \in (IF h + 1 >= 4 THEN {TRUE} ELSE GTChoices) :
           \E x \in Spendable(h + 1), to \in Keys : \E a \in Splits(x) :
              LET t == Spend(n, x, to, a)
                  v == ApplyTx(u, t, h + 1)
@@ -113,8 +118,9 @@ GoodBlock ==
                 /\ hist' = Append(hist, [op |-> "block", label |-> "b" \o ToString(h + 1), gt |-> gt,
                                         txs |-> <<Desc(t)>>, tag |-> "good"])
                 /\ n' = n + 1
+                /\ pool' = Prune(pool, Rebroadcast(v, h + 1), h + 1)
     /\ h' = h + 1
-    /\ UNCHANGED <<pool, nbad>>
+    /\ UNCHANGED <<nbad>>
 
 (* two honest transactions in one block, the second spending an output of the first *)
 ChainedBlock ==
@@ -127,11 +133,12 @@ ChainedBlock ==
           IN /\ x.o \notin {p.ins[1].o : p \in pool}
              /\ u' = Rebroadcast(v, h + 1)
              /\ spent' = spent \cup {x, y} \cup Leaving(v, h + 1, G)
-             /\ hist' = Append(hist, [op |-> "block", label |-> "b" \o ToString(h + 1), gt |-> FALSE,
+             /\ hist' = Append(hist, [op |-> "block", label |-> "b" \o ToString(h + 1), gt |-> (h + 1 >= 3),
                                      txs |-> <<Desc(t1), Desc(t2)>>, tag |-> "chained"])
              /\ n' = n + 2
+             /\ pool' = Prune(pool, Rebroadcast(v, h + 1), h + 1)
     /\ h' = h + 1
-    /\ UNCHANGED <<pool, nbad>>
+    /\ UNCHANGED <<nbad>>
 
 (* ---- adversarial blocks: expected to be rejected, the ledger does not move --------- *)
 Extras(e, x) == IF e = "foreign_input" THEN {z \in Spendable(h + 1) : z.owner # x.owner}
@@ -143,7 +150,7 @@ BadTx(e) ==
 BadBlock ==
     /\ h < MaxH /\ nbad < MaxBad
     /\ \E e \in Edits : \E t \in BadTx(e) :
-          /\ hist' = Append(hist, [op |-> "block", label |-> "x" \o ToString(Len(hist) + 1), gt |-> FALSE,
+          /\ hist' = Append(hist, [op |-> "block", label |-> "x" \o ToString(Len(hist) + 1), gt |-> (h + 1 >= 3),
                                   txs |-> <<Desc(t)>>,
                                   tag |-> "bad:" \o (IF t.edit = "" THEN e ELSE t.edit)])
           /\ TxViolations(u, t, h + 1, G) # {}     \* the catalogue really breaks a rule
@@ -156,7 +163,7 @@ DoubleSpendBlock ==
     /\ \E x \in Spendable(h + 1) :
           LET t1 == Spend(n, x, x.owner, Amt(x))
               t2 == Spend(n + 1, x, Other(x.owner), Amt(x))
-          IN /\ hist' = Append(hist, [op |-> "block", label |-> "x" \o ToString(Len(hist) + 1), gt |-> FALSE,
+          IN /\ hist' = Append(hist, [op |-> "block", label |-> "x" \o ToString(Len(hist) + 1), gt |-> (h + 1 >= 3),
                                      txs |-> <<Desc(t1), Desc(t2)>>, tag |-> "bad:double_spend_in_block"])
              /\ BlockViolations(u, <<t1, t2>>, h + 1, G) # {}
     /\ nbad' = nbad + 1 /\ n' = n + 2
@@ -198,8 +205,8 @@ ConfirmPooled ==
           /\ InWindow(p.ins[1].bh, h + 1, G)
           /\ u' = Rebroadcast(v, h + 1)
           /\ spent' = spent \cup {p.ins[1]} \cup Leaving(v, h + 1, G)
-          /\ pool' = {q \in pool \ {p} : q.ins[1].o \in Names(Rebroadcast(v, h + 1))}
-          /\ hist' = Append(hist, [op |-> "block", label |-> "b" \o ToString(h + 1), gt |-> FALSE,
+          /\ pool' = Prune(pool \ {p}, Rebroadcast(v, h + 1), h + 1)
+          /\ hist' = Append(hist, [op |-> "block", label |-> "b" \o ToString(h + 1), gt |-> (h + 1 >= 3),
                                   txs |-> <<Desc(p)>>, tag |-> "confirm"])
     /\ h' = h + 1
     /\ UNCHANGED <<n, nbad>>
@@ -214,10 +221,10 @@ NothingExpiredLingers == \A x \in u : x.bh + G >= h                             
 SupplyConserved == LimbEq(SumSet(u), Issued)                                            \* C02
 SpentStaysSpent == Names(spent) \cap Names(u) = {}                                      \* C01
 NamesUnique == \A x, y \in u : x.o = y.o => x = y
-PoolSpendsLive == \A p \in pool : p.ins[1].o \in Names(u)                               \* C14
+PoolSpendsLive == \A p \in pool : p.ins[1].o \in Names(u) /\ InWindow(p.ins[1].bh, h + 1, G)                               \* C14
 PoolNoShare == \A p, q \in pool : p # q => p.ins[1].o # q.ins[1].o                      \* C14
 
-Done == h = MaxH
+Done == IF ScnLen = 0 THEN h = MaxH ELSE Len(hist) = ScnLen
 Scenario == [g |-> G, keys |-> Cardinality(Keys), node_key |-> "k1", replica |-> TRUE,
              issuance |-> <<<<"k1", 1000>>, <<"k1", 600>>, <<"k2", 800>>, <<"k2", 400>>>>,
              steps |-> hist]
